@@ -352,6 +352,8 @@ def nipy2nifti(img, data_dtype=None, strict=None, fix0=True):
     hdr.set_dim_info(*dim_infos)
     # Set units without knowing time
     hdr.set_xyzt_units(xyz='mm')
+    # A time offset inherited from the image's previous header must not survive
+    hdr['toffset'] = 0
     # Done if we only have 3 input dimensions
     n_ns = coordmap.ndims[0] - 3
     if n_ns == 0: # No non-spatial dimensions
